@@ -45,6 +45,20 @@ def impl(c):
     def edges(els): return sorted((e["data"]["id"], tuple(sorted((e["data"]["source"], e["data"]["target"]))), e["data"].get("oriented", False), e["data"].get("arrow_shape"), (e["data"]["source"], e["data"]["target"]) if e["data"].get("oriented") else None) for e in els if "source" in e["data"])
     eg, ed, eo = _graph_to_cytoscape_elements(g), _divisor_to_cytoscape_elements(d), _orientation_to_cytoscape_elements(o)
     out["el_graph"] = [nodes(eg), edges(eg)]; out["el_div"] = [nodes(ed), edges(ed)]; out["el_ori"] = [nodes(eo), edges(eo)]
+    # history: the graph that has just been drawn gains edges (a thicker existing edge, a new pair) and everything is drawn again
+    extra = _grow2(G)
+    if extra:
+        for a, b, k in extra: g.add_edge(names[b], names[a], k)
+        d2 = common.build_impl_divisor(G, c["D"], graph=g); o2 = CFOrientation(g, [(names[a], names[b]) for a, b in c["ori"]])
+        e1, e2, e3 = _graph_to_cytoscape_elements(g), _divisor_to_cytoscape_elements(d2), _orientation_to_cytoscape_elements(o2)
+        out["el2_graph"] = [nodes(e1), edges(e1)]; out["el2_div"] = [nodes(e2), edges(e2)]; out["el2_ori"] = [nodes(e3), edges(e3)]
+        e4 = _divisor_to_cytoscape_elements(d); out["el2_div_old"] = [nodes(e4), edges(e4)]       # the divisor object drawn before, on the same (grown) graph
+    return out
+def _grow2(G):
+    n = G["n"]; out = []
+    if G["edges"]: out.append([G["edges"][0][0], G["edges"][0][1], 2])
+    non = [(a, b) for a in range(n) for b in range(a + 1, n) if not any(e[0] == a and e[1] == b for e in G["edges"])]
+    if non: out.append([non[-1][0], non[-1][1], 1])
     return out
 def model_lines(c, r):
     g = common.enc_graph(c["G"]); D = common.enc_list(c["D"]); ls = [["ewd"] + g + D + [1 if c["opt"] else 0]]
@@ -79,12 +93,17 @@ def judge(c, r, mo):
     # elements against the specification
     M = common.matrix(G); exp_edges = sorted(("%s-%s-%d" % (names[a], names[b], i), (names[a], names[b])) for a in range(n) for b in range(a + 1, n) for i in range(M[a][b]))
     odir = {(min(a, b), max(a, b)): (a, b) for a, b in c["ori"]}
-    for key, lab in (("el_graph", lambda v: names[v]), ("el_div", lambda v: "%s\n%d" % (names[v], c["D"][v])), ("el_ori", lambda v: names[v])):
+    keys = [("el_graph", lambda v: names[v], M), ("el_div", lambda v: "%s\n%d" % (names[v], c["D"][v]), M), ("el_ori", lambda v: names[v], M)]
+    if "el2_graph" in o:
+        M2 = common.matrix(common.mk_graph_like(G, G["edges"] + _grow2(G)))
+        keys += [("el2_graph", lambda v: names[v], M2), ("el2_div", lambda v: "%s\n%d" % (names[v], c["D"][v]), M2), ("el2_div_old", lambda v: "%s\n%d" % (names[v], c["D"][v]), M2), ("el2_ori", lambda v: names[v], M2)]
+    for key, lab, MM in keys:
+        exp_edges = sorted(("%s-%s-%d" % (names[a], names[b], i), (names[a], names[b])) for a in range(n) for b in range(a + 1, n) for i in range(MM[a][b]))
         nd, ed = o[key]
         if [list(x) for x in nd] != sorted([names[v], lab(v)] for v in range(n)): out.append({"what": "%s: node elements %s do not mirror the object" % (key, nd)})
         if sorted((e[0], tuple(e[1])) for e in ed) != [(i, tuple(sorted(p))) for i, p in exp_edges]: out.append({"what": "%s: edge elements do not give one element per unit of multiplicity" % key})
         for e in ed:
-            a, b = sorted(names.index(x) for x in e[1]); want = odir.get((a, b)) if key == "el_ori" else None
+            a, b = sorted(names.index(x) for x in e[1]); want = odir.get((a, b)) if key in ("el_ori", "el2_ori") else None
             if (want is None) != (not e[2]) or (e[3] == "triangle") != (want is not None) or (want is not None and list(e[4]) != [names[want[0]], names[want[1]]]):
                 out.append({"what": "%s: arrow on element %s does not match the stored direction %s" % (key, e, want)}); break
     return out[:3]
